@@ -18,6 +18,7 @@
 package c01
 
 import (
+	"context"
 	"encoding/json"
 	"errors"
 	"fmt"
@@ -39,7 +40,8 @@ type Site struct {
 }
 
 type Work struct {
-	Sites []Site `json:"sites"`
+	Sites   []Site `json:"sites"`
+	CtxMode int    `json:"ctx_mode,omitempty"` // 0 simulated cancellable context, 1 context.Background(), 2 vm.Execute (no context argument)
 }
 
 const nSites = 32
@@ -160,6 +162,9 @@ func (Prop) Gen(seed int64, tier string) *harness.Case {
 		}
 		w.Sites = append(w.Sites, s)
 	}
+	if r.Intn(3) == 0 {
+		w.CtxMode = 1 + r.Intn(2)
+	}
 	var evs []harness.EventSpec
 	nf := 1 + r.Intn(3)
 	for i := 0; i < nf; i++ {
@@ -261,7 +266,14 @@ func (Prop) Run(t *testing.T, c *harness.Case, verbose bool) *harness.Result {
 					hostPanic = fmt.Sprint(x)
 				}
 			}()
-			_, mainErr = vm.ExecuteContext(ctx, e, &vm.Options{Debug: false}, src)
+			switch w.CtxMode {
+			case 1:
+				_, mainErr = vm.ExecuteContext(context.Background(), e, &vm.Options{Debug: false}, src)
+			case 2:
+				_, mainErr = vm.Execute(e, &vm.Options{Debug: false}, src)
+			default:
+				_, mainErr = vm.ExecuteContext(ctx, e, &vm.Options{Debug: false}, src)
+			}
 			mainDone = true
 		})
 		res.Outcome = sim.Run()
@@ -300,6 +312,7 @@ func (Prop) Run(t *testing.T, c *harness.Case, verbose bool) *harness.Result {
 		sites = append(sites, strconv.Itoa(s.K%nSites))
 	}
 	sig := "sites=" + strings.Join(sites, ",")
+	res.Counters[fmt.Sprintf("ctx_mode_%d", w.CtxMode)]++
 	fail := func(class, detail string) *harness.Result {
 		res.Violation = class
 		res.Detail = fmt.Sprintf("%s\nfaults (k-th host call -> kind): %v, fired: %v\n%s", detail, faults, fired, src)
@@ -337,7 +350,7 @@ func (Prop) Shrink(c *harness.Case) []*harness.Case {
 		out = append(out, d)
 	}
 	for i := range w.Sites {
-		nw := Work{Sites: append(append([]Site{}, w.Sites[:i]...), w.Sites[i+1:]...)}
+		nw := Work{Sites: append(append([]Site{}, w.Sites[:i]...), w.Sites[i+1:]...), CtxMode: w.CtxMode}
 		if len(nw.Sites) > 0 {
 			emit(nw, c.Events)
 		}
@@ -348,10 +361,14 @@ func (Prop) Shrink(c *harness.Case) []*harness.Case {
 	}
 	for i, s := range w.Sites {
 		if s.Wrap != 0 {
-			nw := Work{Sites: append([]Site{}, w.Sites...)}
+			nw := Work{Sites: append([]Site{}, w.Sites...), CtxMode: w.CtxMode}
 			nw.Sites[i].Wrap = 0
 			emit(nw, c.Events)
 		}
+	}
+	if w.CtxMode != 0 {
+		nw := Work{Sites: w.Sites}
+		emit(nw, c.Events)
 	}
 	for i, ev := range c.Events {
 		if ev.Arg > 1 {
